@@ -514,8 +514,8 @@ func checkFOI(c *Ctx, rule string) {
 		return toks
 	}
 	// pkg/*.foi — strict
-	foiFiles, _ := filepath.Glob(filepath.Join(c.Repo.Root, "pkg", "*", "*.foi"))
-	sort.Strings(foiFiles)
+	checkFOIFiles(c, rule, nil)
+	var foiFiles []string
 	for _, ff := range foiFiles {
 		toks := readToks(ff)
 		pis, errs := parsePackageInfos(ff, toks)
@@ -531,7 +531,6 @@ func checkFOI(c *Ctx, rule string) {
 			checkFOIBlock(c, rule, pi, home, home, libs, true, nil)
 		}
 	}
-	r.Unit("foi_files", len(foiFiles))
 	// package_info blocks inside .fo files
 	type foUnit struct {
 		glob string
@@ -612,4 +611,55 @@ func checkFOI(c *Ctx, rule string) {
 			checkFOIBlock(c, rule, pi, home, s.pkg, libs, false, func(string) bool { return true })
 		}
 	}
+}
+
+// checkFOIFiles checks pkg/<n>/<n>.foi (every declaration must exist and agree) for the named packages (nil: all).
+func checkFOIFiles(c *Ctx, rule string, only []string) {
+	r := c.R
+	libs := map[string]*types.Package{}
+	for _, n := range []string{"frt", "buf", "slice", "strings", "sys", "dict"} {
+		if m := c.Load("pkg/"+n, false); m != nil {
+			libs[n] = m.Main().Types
+		}
+	}
+	foiFiles, _ := filepath.Glob(filepath.Join(c.Repo.Root, "pkg", "*", "*.foi"))
+	sort.Strings(foiFiles)
+	n := 0
+	for _, ff := range foiFiles {
+		if only != nil {
+			keep := false
+			for _, o := range only {
+				if filepath.Base(filepath.Dir(ff)) == o {
+					keep = true
+				}
+			}
+			if !keep {
+				continue
+			}
+		}
+		b, err := os.ReadFile(ff)
+		if err != nil {
+			r.Undecided(rule, ff, "read", ff, err.Error())
+			continue
+		}
+		toks, err := fo.Tokenize(string(b))
+		if err != nil {
+			r.Undecided(rule, ff, "tokenize", ff, err.Error())
+			continue
+		}
+		n++
+		pis, errs := parsePackageInfos(ff, toks)
+		for _, e := range errs {
+			r.Undecided(rule, ff, "parse", ff, e)
+		}
+		for _, pi := range pis {
+			home := libs[pi.pkg]
+			if home == nil {
+				r.Undecided(rule, ff, "package "+pi.pkg, ff, "no Go package for package_info "+pi.pkg)
+				continue
+			}
+			checkFOIBlock(c, rule, pi, home, home, libs, true, nil)
+		}
+	}
+	r.Unit("foi_files", n)
 }
